@@ -31,8 +31,13 @@ EXPLANATION = (
     'any call; (D2) from-states are row 0 and to-states row 1 of the stacked '
     'coordinates handed unsliced to coo_matrix with a square shape; (D3) the '
     'helper is applied per trajectory row and the pair list is never thinned '
-    'or re-sliced after concatenation; (D4) the -1 filter is applied per row '
-    'before slicing and every pair has weight one; (D5) the inferred number '
+    'or re-sliced after concatenation; every row contributes its own pair '
+    'list exactly once (the helper call dominates the statement that adds '
+    'its result - no stale list of the previous row -, the loop visits all '
+    'rows, a row is skipped only when len(row) <= lag); (D4) the -1 filter '
+    'is applied per row before slicing (a trailing strip x[:-K] with a '
+    'count K is rejected by the empty-slice half of the lemma: x[:-0] is '
+    'empty) and every pair has weight one; (D5) the inferred number '
     'of states comes from all assigned frames, not from the pair list. '
     'Additivity/permutation invariance as values follow but are not '
     're-derived.')
@@ -220,6 +225,83 @@ def _lin(e, name):
     return None
 
 
+def _subst(e, env):
+    """Copy of expression `e` with every Name(Load) listed in `env`
+    replaced by (a copy of) the expression it stands for."""
+    import copy
+
+    class _S(ast.NodeTransformer):
+        def visit_Name(self, n):
+            if isinstance(n.ctx, ast.Load) and n.id in env:
+                return copy.deepcopy(env[n.id])
+            return n
+    if not env:
+        return e
+    return ast.fix_missing_locations(_S().visit(copy.deepcopy(e)))
+
+
+def _absent_or(e, value):
+    """Slice component `e` is missing, None, or the literal `value`."""
+    if e is None or (isinstance(e, ast.Constant) and e.value is None):
+        return True
+    return value is not None and isinstance(e, ast.Constant) and type(e.value) is int and e.value == value
+
+
+def _is_count(e):
+    """`e` is syntactically a number of elements: a non-negative integer
+    that is 0 when nothing qualifies (np.count_nonzero(m), (a == b).sum(),
+    len(x), x.size, int(<count>))."""
+    if isinstance(e, ast.Call):
+        cn = call_name(e) or ''
+        if cn in ('np.count_nonzero', 'len') and len(e.args) == 1 and not e.keywords:
+            return True
+        if cn == 'int' and len(e.args) == 1 and not e.keywords:
+            return _is_count(e.args[0])
+        if isinstance(e.func, ast.Attribute) and e.func.attr == 'sum' and not e.args and not e.keywords and \
+                isinstance(e.func.value, ast.Compare):
+            return True
+    if isinstance(e, ast.Attribute) and e.attr == 'size':
+        return True
+    return False
+
+
+def _selection(e):
+    """For `X[lo:up:st]` (one-dimensional slice of a sequence X):
+    (X, 'all')     every element is selected, in either order;
+    (X, 'drops')   literal bounds/step that leave elements out as soon as X
+                   is long enough;
+    (X, 'unknown') non-literal bounds.
+    None if `e` is not such a subscript."""
+    p = _slice_parts(e)
+    if p is None:
+        return None
+    vals = []
+    for x in p[1:]:
+        if _absent_or(x, None):
+            vals.append(None)
+        else:
+            v = const_value(x)
+            vals.append(v if type(v) is int else 'unknown')
+    if 'unknown' in vals:
+        return p[0], 'unknown'
+    lo, up, st = vals
+    if st in (None, 1):
+        return p[0], ('all' if lo in (None, 0) and up is None else 'drops')
+    if st == -1:
+        return p[0], ('all' if lo in (None, -1) and up is None else 'unknown')
+    return p[0], ('drops' if st != 0 else 'unknown')
+
+
+def _loop_of(mod, node, fn):
+    """Innermost for/while statement of `fn` whose body contains `node`."""
+    child, p = node, mod.parent.get(node)
+    while p is not None and child is not fn:
+        if isinstance(p, (ast.For, ast.While, ast.AsyncFor)) and any(child is b for b in p.body):
+            return p
+        child, p = p, mod.parent.get(p)
+    return None
+
+
 # ---------------------------------------------------------------------------
 # D1/D2: the helper
 
@@ -382,6 +464,7 @@ class _Counts:
         self.fi = finfo(mod, fn)
         self.ps = params(fn)
         self.hps = params(mod.func(HELPER))
+        self.flag_truths = set()
 
     # -- D1 ---------------------------------------------------------------
     def lag_guard(self, helper_calls):
@@ -470,49 +553,122 @@ class _Counts:
                 return False
         return False
 
-    def masked_form(self, v):
-        """'masked' | ('near', verdict) | 'far' for an expression that should be the list
-        of per-row -1-filtered trajectories."""
+    def comp_row(self, g):
+        """(row variable, env) of a comprehension generator that walks over
+        the caller's trajectories, one row at a time:
+            for a in assigns                      -> ('a', {})
+            for i, a in enumerate(assigns)        -> ('a', {})
+            for a, k in zip(assigns, K)           -> ('a', {'k': f(a)})  when
+                K = [f(b) for b in assigns] (zip fusion: position i of
+                zip(X, [f(b) for b in X]) is (X[i], f(X[i])))
+        Targets of zip positions the rule cannot resolve stay out of env (the
+        element then mentions a foreign name and is classified 'far')."""
+        fi = self.fi
+        if g.ifs or getattr(g, 'is_async', 0):
+            return None
+        if isinstance(g.target, ast.Name):
+            return (g.target.id, {}) if self.is_raw(g.iter) else None
+        it = g.iter
+        if not (isinstance(g.target, ast.Tuple) and all(isinstance(x, ast.Name) for x in g.target.elts)
+                and isinstance(it, ast.Call) and not it.keywords):
+            return None
+        names = [x.id for x in g.target.elts]
+        cn = call_name(it)
+        if cn == 'enumerate' and len(it.args) == 1 and len(names) == 2 and self.is_raw(it.args[0]):
+            return names[1], {}
+        if cn != 'zip' or len(it.args) != len(names):
+            return None
+        raw = [i for i, a in enumerate(it.args) if self.is_raw(a)]
+        if len(raw) != 1:
+            return None
+        row = names[raw[0]]
+        env = {}
+        for j, a in enumerate(it.args):
+            if j == raw[0]:
+                continue
+            src = _orig(fi, a)
+            while isinstance(src, ast.Call) and call_name(src) in ('list', 'tuple') and len(src.args) == 1 and not src.keywords:
+                src = _orig(fi, src.args[0])
+            if isinstance(src, ast.ListComp) and len(src.generators) == 1:
+                g2 = src.generators[0]
+                if not g2.ifs and isinstance(g2.target, ast.Name) and self.is_raw(g2.iter):
+                    env[names[j]] = _subst(fi.expand(src.elt), {g2.target.id: ast.Name(id=row, ctx=ast.Load())})
+        return row, env
+
+    def row_filter(self, elt, t):
+        """Verdict for the per-row expression `elt` (a function of the row
+        variable `t`) in the role "row without its -1 padding":
+        'masked' | ('near', verdict, detail, construct) | 'far'."""
+        e = canon(elt)
+        if isinstance(e, ast.IfExp):
+            return 'far'
+        p = _slice_parts(e)
+        if p is not None and isinstance(p[0], ast.Name) and p[0].id == t and _absent_or(p[1], 0) \
+                and _absent_or(p[3], 1) and not _absent_or(p[2], None):
+            # a prefix a[:U]: "cut the trailing padding off".  The empty-slice half of the slice lemma
+            # (x[:-0] is x[:0], EMPTY) decides U = -K for a count K; other prefixes are not verified.
+            up = p[2]
+            if isinstance(up, ast.UnaryOp) and isinstance(up.op, ast.USub) and _is_count(up.operand) and \
+                    {x.id for x in walk_expr(up.operand) if isinstance(x, ast.Name)} <= {t} | {'np', 'len', 'int'}:
+                return ('near', ('near', 0, None),
+                        'x[:-K] is never the whole of a non-empty row for a count K >= 0: K = %s is 0 for a row without '
+                        'padding (the longest trajectory of every padded array) and x[:-0] is the EMPTY slice (the slice '
+                        'lemma needs L >= 1), so that trajectory loses all its frames; ' % u(up.operand)[:60],
+                        'row filter: %s' % u(e)[:120])
+            return 'far'
+        verdict = classify(e, _MASKS, binds={'_V': ast.Name(id=t, ctx=ast.Load())}, scope={t})
+        if verdict[0] == 'match':
+            return 'masked'
+        if verdict[0] == 'near':
+            return ('near', verdict, '', 'row filter: %s' % u(e)[:120])
+        return 'far'
+
+    def masked_form(self, v, depth=4):
+        """'masked' | 'raw' | ('near', verdict, detail, construct) | 'far' for an expression
+        that should be the list of per-row -1-filtered trajectories.  A name
+        with several reaching definitions (a filter applied under a condition)
+        is followed through all of them."""
         fi = self.fi
         v = _orig(fi, v)
         while isinstance(v, ast.Call) and call_name(v) in ('np.array', 'np.asarray', 'list', 'tuple') and v.args:
             if any(k.arg != 'dtype' for k in v.keywords) or len(v.args) > 2:
                 return 'far'
             v = _orig(fi, v.args[0])
+        if isinstance(v, ast.Name):
+            if self.is_raw(v):
+                return 'raw'
+            if depth <= 0:
+                return 'far'
+            kinds = []
+            for s, x in _alts(fi, v):
+                if s == 'PARAM' and v.id == self.ps[0] and isinstance(x, ast.Name) and x.id == self.ps[0]:
+                    kinds.append('raw')
+                elif x is None or isinstance(s, str) or s is None:
+                    kinds.append('far')
+                else:
+                    kinds.append(self.masked_form(x, depth - 1))
+            for k in kinds:
+                if isinstance(k, tuple):
+                    return k            # wrong on the executions that take this definition
+            if kinds and all(k == 'masked' for k in kinds):
+                return 'masked'
+            if kinds and all(k == 'raw' for k in kinds):
+                return 'raw'
+            return 'far'                # e.g. filtered on one path only: not decided
         if not isinstance(v, (ast.ListComp, ast.GeneratorExp)) or len(v.generators) != 1:
             return 'far'
-        g = v.generators[0]
-        if g.ifs or not isinstance(g.target, ast.Name) or not self.is_raw(g.iter):
+        r = self.comp_row(v.generators[0])
+        if r is None:
             return 'far'
-        t = g.target.id
-        verdict = classify(fi.expand(v.elt), _MASKS, binds={'_V': ast.Name(id=t, ctx=ast.Load())}, scope={t})
-        if verdict[0] == 'match':
-            return 'masked'
-        if verdict[0] == 'near':
-            return ('near', verdict)
-        return 'far'
+        t, env = r
+        return self.row_filter(_subst(fi.expand(v.elt), env), t)
 
     def rows_kind(self, it):
         """How the iterable of the per-row loop relates to the caller's
-        trajectories: 'masked' | 'raw' | ('near', v) | 'far'."""
-        fi = self.fi
+        trajectories: 'masked' | 'raw' | ('near', v, detail, construct) | 'far'."""
         if self.is_raw(it):
             return 'raw'
-        it = _orig(fi, it)
-        if not isinstance(it, ast.Name):
-            return self.masked_form(it)
-        kinds = []
-        for s, v in _alts(fi, it):
-            if v is None or isinstance(s, str):
-                kinds.append('far')
-            else:
-                kinds.append(self.masked_form(v))
-        if kinds and all(k == 'masked' for k in kinds):
-            return 'masked'
-        for k in kinds:
-            if isinstance(k, tuple):
-                return k
-        return 'far'
+        return self.masked_form(it)
 
     def joined_rows(self, e):
         """`e` is a concatenation/flattening of (all) the trajectories."""
@@ -600,6 +756,15 @@ class _Counts:
                 ck.missing('C03.D3.per-row', 'the trajectory handed to the helper is not recognised as the iteration '
                            'variable of a loop over the trajectories: %s' % u(hc)[:160])
             return
+        sel = _selection(_orig(fi, it))
+        if sel is not None and (self.rows_kind(sel[0]) != 'far' or self.ps[0] in fi.derives_from(sel[0])[0]):
+            if sel[1] == 'drops':
+                ck.bad('C03.D3.every-row', mod, hc, COUNTS, 'for %s in %s' % (row.id, fi.xu(it)[:120]),
+                       'the per-row loop must visit every trajectory: the literal slice `%s` of the rows leaves '
+                       'trajectories out, whose pairs then miss from the counts' % u(_orig(fi, it))[:80])
+                return
+            if sel[1] == 'all':
+                it = sel[0]
         rk = self.rows_kind(it)
         derived = rk != 'far' or self.ps[0] in fi.derives_from(it)[0]
         if not derived:
@@ -618,7 +783,8 @@ class _Counts:
         elif rk == 'raw':
             ck.bad('C03.D4.mask', mod, hc, COUNTS, construct, why_bad)
         elif isinstance(rk, tuple):
-            ck.decide(rk[1], 'C03.D4.mask', mod, hc, COUNTS, construct, '', why_bad)
+            ck.decide(rk[1], 'C03.D4.mask', mod, hc, COUNTS, '%s ; %s' % (rk[3], construct) if len(rk) > 3 else construct, '',
+                      (rk[2] if len(rk) > 2 else '') + why_bad)
         else:
             ck.missing('C03.D4.mask', 'the per-row -1 filter is not recognised in the definition of the iterated rows: %s' % construct[:200])
 
@@ -732,6 +898,126 @@ class _Counts:
                 return 'bad'
         return None
 
+    def pair_freshness(self, name_node, where):
+        """For a Name use all of whose assignment definitions are calls of
+        the helper: (kind, calls, sites) with kind
+          'fresh'   on every path through the iteration (the innermost loop
+                    around `where`, or the function) one of the calls runs
+                    before `where`: the value is this row's pair list;
+          'stale'   some path reaches `where` without passing a call: the
+                    value of an earlier iteration (or no value) arrives;
+          'hoisted' the calls sit outside the loop around `where`.
+        None if the name is (also) defined otherwise."""
+        mod, fn, fi = self.mod, self.fn, self.fi
+        try:
+            defs = fi.defs_of_use(name_node)
+        except Exception:
+            return None
+        sites = [s for s in defs if not isinstance(s, str)]
+        if not sites or 'PARAM' in defs or fi._mutated_in_place(name_node.id):
+            return None
+        calls = []
+        for s in sites:
+            v = fi.def_value(s, name_node.id) if isinstance(s, (ast.Assign, ast.AnnAssign)) else None
+            if not (isinstance(v, ast.Call) and call_name(v) == HELPER):
+                return None
+            calls.append(v)
+        sites.sort(key=lambda s: getattr(s, 'lineno', 0))
+        ws = fi.stmt(where)
+        loop = _loop_of(mod, ws, fn)
+        p = mod.parent.get(name_node)
+        while p is not None and p is not ws and not isinstance(p, (ast.ListComp, ast.GeneratorExp, ast.SetComp, ast.DictComp)):
+            p = mod.parent.get(p)
+        if any(_loop_of(mod, s, fn) is not loop for s in sites) or (p is not None and p is not ws):
+            # computed outside the loop / comprehension that adds it once per row
+            return 'hoisted', calls, sites
+        start = loop if loop is not None else 'ENTRY'
+        if fi.cfg.reachable(start, ws, avoiding=sites):
+            return 'stale', calls, sites
+        return 'fresh', calls, sites
+
+    def every_row(self, where, calls):
+        """D3: every trajectory's pair list enters the coordinates.  The
+        statement `where` (inside the per-row loop) may be skipped only for
+        rows that have no pair anyway: len(row) <= lag."""
+        ck, mod, fn, fi = self.ck, self.mod, self.fn, self.fi
+        rule = 'C03.D3.every-row'
+        lag, sw = self.ps[1], self.ps[3]
+        ws = fi.stmt(where)
+        loop = _loop_of(mod, ws, fn)
+        if loop is None:
+            return
+        guards = [a for a in _assumes(fi, ws) if _inside(mod, a.owner, loop)]
+        if not guards:
+            return
+        rows = set()
+        if isinstance(loop, ast.For) and isinstance(loop.target, ast.Name):
+            rows.add(loop.target.id)
+        for h in calls:
+            a0 = arg_or_kw(h, 0, self.hps[0])
+            if a0 is not None:
+                rows.add(fi.xu(a0))
+
+        def row_len(e):
+            e = canon(fi.expand(e))
+            x = None
+            if isinstance(e, ast.Call) and call_name(e) == 'len' and len(e.args) == 1 and not e.keywords:
+                x = e.args[0]
+            elif isinstance(e, ast.Attribute) and e.attr == 'size':
+                x = e.value
+            elif isinstance(e, ast.Subscript) and const_value(e.slice) == 0 and isinstance(e.value, ast.Attribute) and e.value.attr == 'shape':
+                x = e.value.value
+            return x is not None and u(x) in rows
+
+        def atom(cj):
+            """'ok' (skips only rows without pairs) | 'bad' | 'far'."""
+            if isinstance(cj, tuple):
+                if cj[0] == 'expr' and row_len(cj[1]):
+                    return 'ok' if cj[2] else 'bad'
+                return 'far'
+            less = cj.as_less() if isinstance(cj, Cmp) else None
+            if less is None:
+                if isinstance(cj, Cmp) and cj.rel in ('==', '!=') and (row_len(cj.lhs) or row_len(cj.rhs)):
+                    other = cj.rhs if row_len(cj.lhs) else cj.lhs
+                    if cj.rel == '!=' and const_value(fi.expand(other)) == 0:
+                        return 'ok'
+                    return 'bad' if _lin(fi.expand(other), lag) is not None else 'far'
+                return 'far'
+            small, strict, big = less
+            if row_len(big):
+                k = _lin(fi.expand(small), lag)
+                if k is None:
+                    return 'far'
+                c0, c1 = k[0] - (0 if strict else 1), k[1]
+                # rows with len <= c0 + c1*lag are skipped: harmless iff that bound is <= lag for every lag >= 1
+                return 'ok' if c1 <= 1 and c0 + c1 <= 1 else 'bad'
+            if row_len(small):
+                return 'bad' if _lin(fi.expand(big), lag) is not None else 'far'
+            return 'far'
+        for a in guards:
+            cs = conjuncts(a.test, a.polarity)
+            text = ('' if a.polarity else 'not ') + '(%s)' % u(a.test)[:100]
+            vs = []
+            for cj in (cs if cs is not None else ['?']):
+                if isinstance(cj, tuple) and cj[0] == 'expr' and isinstance(cj[1], ast.Name) and cj[1].id == sw \
+                        and not _rebound(fi, sw):
+                    # selects whole executions, not rows: both values of the flag must be served
+                    self.flag_truths.add(cj[2])
+                    continue
+                vs.append(atom(cj) if cs is not None else 'far')
+            if not vs:
+                continue
+            if 'bad' in vs:
+                ck.bad(rule, mod, a.owner, COUNTS, 'pairs of a row are counted only if %s' % text,
+                       'the pair list of a trajectory may be left out only when the trajectory has no pair at all '
+                       '(len(row) <= %s): this condition also drops trajectories that are longer than the lag, whose '
+                       'max(0, length - %s) pairs then miss from the counts' % (lag, lag))
+            elif 'far' in vs:
+                ck.missing(rule, 'condition under which the pair list of a row is counted not recognised: %s' % text)
+            else:
+                ck.ok(rule, mod, a.owner, 'pairs of a row are counted only if %s' % text,
+                      'only rows with len(row) <= %s (no pairs) are skipped' % lag)
+
     def unsliced(self, c, coords, helper_calls):
         ck, mod, fn, fi = self.ck, self.mod, self.fn, self.fi
         rule = 'C03.D3.unsliced'
@@ -769,11 +1055,32 @@ class _Counts:
 
         def element(e, where):
             nonlocal bad, far
+            eo = _orig(fi, e)
+            fresh = self.pair_freshness(eo, where) if isinstance(eo, ast.Name) else None
+            if fresh is not None:
+                kind, calls, sites = fresh
+                for h in calls:
+                    accounted.add(id(h))
+                if kind == 'stale':
+                    bad += 1
+                    ck.bad('C03.D3.fresh-pairs', mod, where, COUNTS, '%s  <-  %s = %s' % (u(where)[:80], eo.id, u(calls[0])[:80]),
+                           'the pair list `%s` that enters the coordinates at %s is computed by %s (%s) only on some paths '
+                           'of the iteration - the call does not dominate this statement.  On the other paths the pairs of '
+                           'the PREVIOUS trajectory are added a second time (or the name is unbound in the first iteration): '
+                           'every trajectory must contribute exactly its own max(0, length - %s) pairs' % (
+                               eo.id, mod.loc(where), HELPER, ', '.join(mod.loc(s) for s in sites), lag))
+                elif kind == 'hoisted':
+                    far += 1
+                    ck.missing('C03.D3.fresh-pairs', 'the pair list `%s` added at %s is computed outside the per-row loop' % (
+                        eo.id, mod.loc(where)))
+                else:
+                    self.every_row(where, calls)
+                return
             h = is_helper(e)
             if h is not None:
                 accounted.add(id(h))
+                self.every_row(where, [h])
                 return
-            eo = _orig(fi, e)
             if isinstance(eo, ast.Subscript) and from_pairs(eo.value):
                 bad += 1
                 ck.bad(rule, mod, where, COUNTS, u(eo)[:200],
@@ -803,6 +1110,16 @@ class _Counts:
             t = _orig(fi, t)
             while isinstance(t, ast.Call) and call_name(t) in ('list', 'tuple') and len(t.args) == 1 and not t.keywords:
                 t = _orig(fi, t.args[0])
+            sel = _selection(t)
+            if sel is not None and from_pairs(sel[0]):
+                if sel[1] == 'drops':
+                    bad += 1
+                    ck.bad('C03.D3.every-row', mod, fi.stmt(t), COUNTS, u(t)[:200],
+                           'every per-row pair list must be concatenated: the literal slice `%s` leaves the pairs of '
+                           'whole trajectories out of the counts' % u(t)[:80])
+                    continue
+                if sel[1] == 'all':
+                    t = _orig(fi, sel[0])
             alts = _alts(fi, t) if isinstance(t, ast.Name) else [(fi.stmt(t), t)]
             grown = set()
             if isinstance(t, ast.Name):
@@ -841,6 +1158,10 @@ class _Counts:
                 else:
                     far += 1
                     ck.missing(rule, 'per-row pair list not recognised: %s' % u(v)[:120])
+        if self.flag_truths and self.flag_truths != {True, False}:
+            far += 1
+            ck.missing('C03.D3.every-row', 'pair lists enter the coordinates only when `%s` is %s' % (
+                self.ps[3], sorted(self.flag_truths)[0]))
         stray = [h for h in helper_calls if id(h) not in accounted]
         if stray and not bad and not far:
             far += 1
